@@ -151,7 +151,71 @@ fn outside_only(dir: &Path, label: &str, canaries: &mut Vec<PathBuf>) {
     write_file(&dir.join("a").join(format!("only_{label}_nested.txt")), 'C', canaries);
 }
 
+/// request stems that exist nowhere as such — only DECORATED spellings of them exist, and only
+/// outside the base: with a template suffix, as a directory with an index file, in another case,
+/// with blanks around, in another Unicode normal form
+const GHOSTS: [&str; 6] = ["ghost", "Ghost.txt", "ghost2", "caf\u{e9}", "\u{fb01}le", "partial.html"];
+const SUFFIXES: [&str; 8] = [".j2", ".html", ".txt", ".jinja", ".jinja2", ".tmpl", ".htm", ".tpl"];
+
+/// decorated namesakes (all canaries) in one directory outside the base
+fn decorate(dir: &Path, canaries: &mut Vec<PathBuf>) {
+    for stem in GHOSTS.iter().chain(["a.", "only_outside.txt", "onlyoutside", "a"].iter()) {
+        for suf in SUFFIXES {
+            let p = dir.join(format!("{stem}{suf}"));
+            if !p.exists() {
+                write_file(&p, 'C', canaries);
+            }
+        }
+    }
+    for stem in GHOSTS {
+        fs::create_dir_all(dir.join(stem)).unwrap();
+        for idx in ["index.html", "index.j2", "index", "default.html"] {
+            write_file(&dir.join(stem).join(idx), 'C', canaries);
+        }
+    }
+    // other case, blanks, other normal forms of the ghosts
+    for f in ["GHOST", "Ghost", "ghost.txt", "GHOST.TXT", " ghost2", "ghost2 ", "ghost2\n", "cafe\u{301}", "file", "PARTIAL.HTML"] {
+        let p = dir.join(f);
+        if !p.exists() {
+            write_file(&p, 'C', canaries);
+        }
+    }
+}
+
+/// the names that go with `decorate`: the undecorated stems (absolute and relative spellings) and
+/// decorated requests
+fn decorated_requests(t: &Tree) -> Vec<String> {
+    let mut v = vec![];
+    let stems: Vec<&str> = GHOSTS.iter().copied().chain(["a.", "only_outside.txt", "onlyoutside"]).collect();
+    for dir in t.decorated.iter() {
+        for stem in &stems {
+            let p = dir.join(stem).to_str().unwrap().to_string();
+            v.push(format!("/{p}"));
+            v.push(format!("{p}/"));
+            v.push(p);
+        }
+    }
+    for stem in &stems {
+        v.push(stem.to_string());
+        v.push(format!("/{stem}"));
+        v.push(format!("{stem}/"));
+        v.push(format!("a/{stem}"));
+        v.push(format!("{stem}/index.html"));
+        v.push(format!("{stem}/index"));
+        for suf in SUFFIXES {
+            v.push(format!("{stem}{suf}"));
+        }
+        v.push(stem.to_uppercase());
+        v.push(stem.to_lowercase());
+        v.push(format!(" {stem}"));
+        v.push(format!("{stem} "));
+    }
+    v
+}
+
 struct Tree {
+    /// the directories outside the base that hold decorated namesakes
+    decorated: Vec<PathBuf>,
     root: PathBuf,
     p4: PathBuf,
     base: PathBuf,
@@ -188,12 +252,18 @@ fn build_tree() -> Tree {
     // a sibling of the base
     fs::create_dir_all(p4.join("sibling")).unwrap();
     write_file(&p4.join("sibling").join("only_sibling.txt"), 'C', &mut canaries);
+    let mut decorated = chain.clone();
+    decorated.push(p4.join("sibling"));
+    decorated.push(p4.join("a"));
+    for d in &decorated {
+        decorate(d, &mut canaries);
+    }
     let base = p4.join("base");
     let mut none = vec![];
     populate(&base, 4, 'B', &mut none);
     fs::write(base.join("inc"), "{% include name %}").unwrap();
     std::env::set_current_dir(&p4).unwrap();
-    Tree { root, p4, base, chain, canaries }
+    Tree { decorated, root, p4, base, chain, canaries }
 }
 
 /// the spellings of the base directory handed to `path_loader` (cwd = the base's parent)
@@ -684,6 +754,7 @@ fn targeted(t: &Tree) -> Vec<String> {
     // every canary file requested by its file name and by its name relative to each of the
     // directories above it inside the scratch tree (plain, rooted, doubled and trailing slashes)
     let mut rels: Vec<String> = vec![];
+    v.extend(decorated_requests(t));
     for c in &t.canaries {
         let mut cands = vec![c.file_name().unwrap().to_str().unwrap().to_string()];
         for d in &t.chain {
